@@ -88,7 +88,9 @@ CLAIMED = {
               "for a catalogue of 29 calls (all public Grid methods, pad, apply_as_grid_ufunc, constructor, transform with stubbed "
               "kernels; scalar and vector; simple and face-connected grids; single and multi axis; well-posed and ill-posed) every "
               "dictionary / list / array argument, the dataset and the Grid's settings are unchanged at every exit, normal or "
-              "exceptional, on every path and for all sizes and data. History-independence follows by induction over the call sequence."),
+              "exceptional, on every path and for all sizes and data. History-independence: by induction over the call sequence, and "
+              "directly - every catalogued call is re-executed after each other call / pair of calls on the same Grid and proved to "
+              "return the same dims, sizes, coordinates and values (catches caches and other hidden state)."),
         design_ref="DESIGN.md 7/C18",
         note=COMMON_NOTE + "Assumes xarray/numpy calls mutate their inputs only through the tracked setters (name, attrs, item "
              "assignment). The catalogue of operations is an enumeration; sequences are covered by the inductive argument, not enumerated.",
@@ -115,7 +117,8 @@ CLAIMED = {
               "registered partition with largest first block, factors at position or interpolated), KeyError iff none, result "
               "broadcasts against the array; metric values/sizes symbolic and non-uniform. Plus integrate = sum(data*metric) in "
               "any axis order, average = sum(data*w)/sum(w), derivative = diff/metric at the result position, metric_weighted "
-              "op = op(data*m)/m' (single and per-axis mapping). average(constant)=constant is a BOUNDED stand-in (n<=3)."),
+              "op = op(data*m)/m' (single and per-axis mapping), average(field constant along the averaged dims) = that constant for any "
+              "number of cells and positive weights (finite-sum linearity + positivity lemmas, Lean-checked in the thorough tier)."),
         design_ref="DESIGN.md 7/C10",
         note=COMMON_NOTE + "Products/quotients of two non-constant values are uninterpreted (commutative fmul, fdiv). Registries "
              "are enumerated over a pool (quick: all 1-2-axis registries + 24 sampled 3-axis ones; thorough: all).",
@@ -215,7 +218,8 @@ CLAIMED = {
               "face-connection table and boundary_width are presented in different insertion orders, and any two runs whose "
               "path conditions can hold together are proved (z3) to produce the same dims, the same accept/reject outcome and, "
               "for all sizes/widths/data, the same values INCLUDING halo corner cells; likewise Grid.axes order of COMODO/SGRID "
-              "autoparsed grids, equivalent() of signatures (1500 pairs) and the metric product get_metric chooses for three axes. "
+              "autoparsed grids, equivalent() of signatures (1500 pairs) and the metric product get_metric chooses for three axes "
+              "(set/frozenset of the grid namespace demonic as well). "
               "The inventory of set-creating sites is re-read from the AST on every run."),
         design_ref="DESIGN.md 7/C12",
         note=COMMON_NOTE + "Assumes hash randomisation reaches results only through iteration of set/frozenset of str created "
@@ -229,7 +233,8 @@ CLAIMED = {
               "center, both shift signs on inner/outer, 1-3 axes, both dimension orders; all coordinate lengths symbolic) or by "
               "the SGRID rule (1-D / 2-D / 2-D+vertical / 3-D, every padding word, with and without a space after ':') parses "
               "back to exactly that mapping; Grid(ds) equals the Grid built from the explicit mapping; SGRID is used iff declared; "
-              "user coords together with parsed coords are rejected."),
+              "user coords together with parsed coords are rejected; the SGRID declaration is recognised in seven spellings of the "
+              "Conventions attribute (blank- and comma-separated lists, either order, lower-case key) with stale COMODO attributes present."),
         design_ref="DESIGN.md 7/C14",
         note=COMMON_NOTE + "Attribute strings and names are concrete (str.replace/split run natively); name opacity is C13.",
         technique="contract-based deductive verification: symbolic execution of the real parsers (round-trip postcondition)",
@@ -243,7 +248,9 @@ CLAIMED = {
               "of each other, and temporary-name clashes: for every renaming (single letters occurring in the position words, names "
               "containing position words, prefixes / substrings of each other, case variants, 12-character names; 14 axis families "
               "x 5 dimension families) the same call is accepted and satisfies the same postcondition for all sizes, data and fill "
-              "values - renaming changes nothing but the labels. The quantifier over renamings is BOUNDED to this family."),
+              "values - renaming changes nothing but the labels; the full two-axis padded array of a face-connected grid, corner cells "
+              "included, is proved equal across six namings incl. ones that invert the alphabetical order of the axes. The quantifier "
+              "over renamings is BOUNDED to this family."),
         design_ref="DESIGN.md 7/C13",
         note=COMMON_NOTE + "Parametricity is not proved for all names: the renaming quantifier is a finite adversarial family "
              "(listed in the evidence); within each renaming all numeric content is universally quantified.",
@@ -254,7 +261,8 @@ CLAIMED = {
         text=("Composition of contracts: (1) C05 (halo = documented cell) and C01 (stencil) proved separately; (2) proved here on the "
               "real code: Grid.diff/interp/min/max on a face-connected grid (generic face of a table of any size, all sizes/data "
               "symbolic, face dimension before/after extra dims) equals the stencil applied to what the real pad() returns for the "
-              "ufunc's boundary_width; (3) geometry lemma (z3, specification only): for each of f's 4 edges and each of the 4 link "
+              "ufunc's boundary_width, and that pad() result is re-proved against the C05 halo specification (scalar, one and two "
+              "slots); (3) geometry lemma (z3, specification only): for each of f's 4 edges and each of the 4 link "
               "kinds exactly one of the 8 orientations of the neighbouring square makes the documented source cell the affine "
               "continuation of f's lattice - then the halo value equals the undivided field there and the reciprocal link (C17) "
               "serves the neighbour symmetrically. A native two-face cross-check of the lemma's placement model is a BOUNDED stand-in."),
@@ -267,7 +275,8 @@ CLAIMED = {
         category="proof",
         text=("(1) C05 vector clauses proved separately; (2) here on the real code: Grid.diff/interp with {axis: component} and "
               "other_component on a face-connected grid equals the stencil applied to pad()'s result for the vector input, the "
-              "dictionaries are not modified; (3) geometry lemma (z3): for a C-grid vector on the undivided domain and a neighbour "
+              "dictionaries are not modified, the vector pad() result is re-proved against the C05 partner/sign specification and "
+              "diff_2d_vector / interp_2d_vector return both components; (3) geometry lemma (z3): for a C-grid vector on the undivided domain and a neighbour "
               "placed as the non-reversed link kind expresses (identity / quarter turn), the edge value the along-axis diff/interp "
               "needs equals, by the C05 partner/sign semantics, the undivided component on that edge, hence equal cell divergence; "
               "(4) on a grid without face connections the vector form equals the scalar form for all 32 operator/shift pairs "
